@@ -163,10 +163,10 @@ Theorem C05_ws_frames : forall c hs l arr,
 Proof. exact ws_stream_delivered. Qed.
 Print Assumptions C05_ws_frames.
 
-(* ... and a payload that is the WebSocket serialisation of a well-formed message (more than 2
-   bytes: coap_read_session ignores shorter frames) is accepted by the PDU parser and decodes to it *)
+(* ... and every payload that is the WebSocket serialisation of a well-formed message (2 bytes
+   or more, e.g. the 2-byte Ping 00 e2) is accepted by the PDU parser and decodes to it *)
 Theorem C05_ws_frames_delivered : forall ms,
-  Forall (fun m => msg_wf m /\ 2 < len (serialize WS m)) ms ->
+  Forall msg_wf ms ->
   ws_observe (map (fun m => WMsg (serialize WS m)) ms) = map (fun m => WDeliver (norm_fields WS m)) ms.
 Proof. exact ws_observe_messages. Qed.
 Print Assumptions C05_ws_frames_delivered.
